@@ -202,6 +202,40 @@ class DB:
     def cls(self, qual):
         return self.get(qual, ast.ClassDef)
 
+    def with_helpers(self, fn):
+        """fn and the functions outside the inventory (i.e. helpers that a refactoring split off and the normaliser could not
+        unfold) it calls, transitively: the code that used to be fn.  [fn, helper, ...]"""
+        from . import normalize
+        if not hasattr(self, "_known"):
+            self._known = normalize.load_known()
+        out, todo = [fn], [fn]
+        while todo:
+            f = todo.pop()
+            q = getattr(f, "_qual", "")
+            mod = q.split(".")[0] if not q.startswith("ext.") else ".".join(q.split(".")[:2])
+            owner = q.rsplit(".", 1)[0]
+            for c in ast.walk(f):
+                if not isinstance(c, ast.Call):
+                    continue
+                cand = []
+                if isinstance(c.func, ast.Name):
+                    cand = [q + "." + c.func.id, owner + "." + c.func.id, mod + "." + c.func.id]
+                elif isinstance(c.func, ast.Attribute) and isinstance(c.func.value, ast.Name) and c.func.value.id in ("self", "cls"):
+                    cand = [owner + "." + c.func.attr]
+                    cd = self.defs.get(owner)
+                    for b in getattr(cd, "bases", []):
+                        if isinstance(b, ast.Name):
+                            cand.append(mod + "." + b.id + "." + c.func.attr)
+                elif isinstance(c.func, ast.Attribute) and isinstance(c.func.value, ast.Name) and (mod + "." + c.func.value.id) in self.defs:
+                    cand = [mod + "." + c.func.value.id + "." + c.func.attr]
+                for k in cand:
+                    n = self.defs.get(k)
+                    if isinstance(n, (ast.FunctionDef, ast.AsyncFunctionDef)) and k not in self._known and n not in out:
+                        out.append(n)
+                        todo.append(n)
+                        break
+        return out
+
     def methods(self, clsqual):
         c = self.cls(clsqual)
         return {n.name: n for n in c.body if isinstance(n, (ast.FunctionDef, ast.AsyncFunctionDef))}
